@@ -362,50 +362,6 @@ def records(model, limit=60):
     return denote.records_of(model, limit)
 
 
-def judge_intervention(c, rng, M, M2, K, make_expected, label, new_param_sampler=None, fixed=None, rec_patch=None,
-                       skip=(), eta_range=0.7, recs=None):
-    """Sampled comparison of M2 with the intervention semantics on M.
-
-    make_expected(vals, rec, amounts, t) -> kwargs for run(M, ...) (override / rv_subst) or raises PointRejected.
-    Returns (judged points, message or None)."""
-    from vp import denote
-    from vp.ir_eval import EvalError, Unbound
-
-    recs = recs if recs is not None else records(M2)
-    names = [n for n in dict.fromkeys(assigned_names(M)) if n in set(assigned_names(M2))]
-    dm, dm2 = denote.IRDen(M), denote.IRDen(M2)
-    judged = 0
-    attempts = 0
-    while judged < K and attempts < 8 * K:
-        attempts += 1
-        vals, rec, amounts, t = draw_point(rng, [M, M2], recs, fixed=fixed, eta_range=eta_range,
-                                           new_param_sampler=new_param_sampler)
-        if rec_patch:
-            rec.update(rec_patch(rec) if callable(rec_patch) else rec_patch)
-        try:
-            kw = make_expected(vals, rec, amounts, t)
-            E = run(M, vals, rec, amounts, t, den=dm, **kw)
-        except (EvalError, PointRejected):
-            c.hit("point_rejected")
-            continue
-        except Unbound:
-            c.hit("point_rejected_unbound_in_original")
-            continue
-        try:
-            A = run(M2, vals, rec, amounts, t, den=dm2)
-        except EvalError:
-            c.hit("point_rejected_after")
-            continue
-        except Unbound as u:
-            return judged, f"the extended model reads undefined symbol {u} where the original evaluates"
-        msg = compare_runs(E, A, names, skip)
-        c.hit("intervention_symbols", len(names))
-        if msg:
-            return judged, f"{label}: {msg} at {_pt(vals, rec)}"
-        judged += 1
-    return judged, None
-
-
 def _pt(vals, rec):
     return {"vals": {k: round(float(v), 6) for k, v in list(vals.items())[:14]},
             "rec": {k: v for k, v in list(rec.items())[:12]}}
@@ -819,7 +775,7 @@ def case_cov(c, rng, idx, K):
                     except (ValueError, ZeroDivisionError):
                         pass
         vals, rec, amounts, t, E0, A = pts[0]
-        c.violate(_cov_key(stratum, "formula", c), f"{c.sample['call']}: {p} after = {_f(A[0][p])}, before = {_f(E0[0][p])} at {cov}={rec[cov]}, "
+        c.violate(None, f"{c.sample['call']}: {p} after = {_f(A[0][p])}, before = {_f(E0[0][p])} at {cov}={rec[cov]}, "
                         f"new thetas {[(q, _f(vals[q])) for q in newp]}: not the documented effect function for any documented "
                         f"centring statistic {stats['median'] if not cat else stats['most_common']}{why}")
         return c
@@ -846,7 +802,7 @@ def case_cov(c, rng, idx, K):
         c.hit("intervention_symbols", len(names))
         msg = compare_runs(E, A, names)
         if msg:
-            c.violate(_cov_key(stratum, "intervention", c), f"{c.sample['call']}: {msg} (expected = original model with {p} replaced by the documented "
+            c.violate(None, f"{c.sample['call']}: {msg} (expected = original model with {p} replaced by the documented "
                             f"formula after its last assignment) at {_pt(vals, rec)}")
             return c
 
@@ -867,7 +823,7 @@ def case_cov(c, rng, idx, K):
             msg = compare_runs(E, A2, names)
             if msg:
                 ok = False
-                key = "C09/additive-covariate-effect-not-neutral-at-reference" if op == "+" else _cov_key(stratum, "neutral", c)
+                key = "C09/additive-covariate-effect-not-neutral-at-reference" if op == "+" else None
                 c.violate(key, f"{c.sample['call']}: at the reference covariate value {cov}={ref_value} the extended model differs "
                                f"from the original: {msg}")
                 break
@@ -928,10 +884,6 @@ def _identify_cat(pts, p, cov, newp, stats, alternative, combine):
                 mapping[lv] = cands[0]
         if ok:
             return mapping, (ref,)
-    return None
-
-
-def _cov_key(stratum, monitor, c):
     return None
 
 
@@ -1012,12 +964,8 @@ def _cov_remove(c, rng, M, M2, p, cov, K):
         return
     msg = _same_function(c, rng, M, R, K)
     if msg:
-        c.violate(_remove_key(M, p, cov), f"{c.sample['call']} then remove_covariate_effect(m, {p!r}, {cov!r}) does not restore the "
+        c.violate(None, f"{c.sample['call']} then remove_covariate_effect(m, {p!r}, {cov!r}) does not restore the "
                                           f"original function: {msg}")
-
-
-def _remove_key(M, p, cov):
-    return None
 
 
 def _same_function(c, rng, M, R, K, monitor="remove_restores", skip=()):
@@ -1238,6 +1186,22 @@ def case_allometry(c, rng, idx, K):
         m2 = compare_runs(E, A2, [n for n in dict.fromkeys(assigned_names(M)) if n in set(assigned_names(M2))])
         if m2:
             c.violate(None, f"{c.sample['call']}: at {xvar} = reference value {ref} the scaled model differs from the original: {m2}")
+            return c
+    # removal (documented in the example of add_allometry: remove_covariate_effect(model, P, variable))
+    try:
+        R = M2
+        for _, p_, _T in found:
+            R = pm.remove_covariate_effect(R, p_, xvar)
+        dep_before = [p_ for _, p_, _T in found if pm.has_covariate_effect(M, p_, xvar)]
+    except Exception as e:
+        c.hit(f"remove_failed:{type(e).__name__}")
+        R = None
+        dep_before = []
+    if R is not None and not dep_before:
+        m3 = _same_function(c, rng, M, R, K)
+        if m3:
+            c.violate(None, f"{c.sample['call']} then remove_covariate_effect of {xvar} on {[p_ for _, p_, _T in found]} does not restore the "
+                            f"original function: {m3}")
             return c
     # documented initial estimates, bounds, fixedness
     if explicit:
